@@ -55,7 +55,7 @@ CHECKS["C06"] = (
 CHECKS["C13"] = (
     "exploration",
     "runtime monitoring: seeded connection histories under a virtual clock checked against a harness-side resumption history model",
-    "Held on the histories observed: full handshakes, resumption attempts (session ID, TLS<=1.2 ticket, TLS 1.3 ticket), closures (clean/fatal/abrupt), clock advances around cache age and ticket lifetime, ticket-key rotation, foreign server, cache eviction, altered/truncated tickets, unknown IDs and ClientHello changes; per attempt the model derives must-not-resume / must-complete and the observed resumed flags, outcome, parameters and client identity are compared.",
+    "Held on the histories observed: full handshakes, resumption attempts (session ID, TLS<=1.2 ticket, TLS 1.3 ticket), closures (clean/fatal/abrupt), clock advances around cache age and ticket lifetime, ticket-key rotation, foreign server, cache eviction, altered/truncated tickets, unknown IDs, ClientHello changes, handshakes refused by the client's Checker and server calls without a certificate request; per attempt the model derives must-not-resume / must-complete and the observed resumed flags, outcome, parameters and client identity are compared.",
     "may_resume never obliges resumption except for fresh unmodified control attempts; resumption at a lower protocol version is recorded, not judged.",
     "DESIGN.md section 3, C13")
 CHECKS["C18"] = (
